@@ -161,7 +161,11 @@ func (m *Message) Root() (Ptr, error) {
 	if err != nil {
 		return Ptr{}, annotate(err).errorf("read root")
 	}
-	p, err := s.root().At(0)
+	root := s.root()
+	if !root.IsValid() {
+		return Ptr{}, newError("read root: first segment is too short to hold a root pointer")
+	}
+	p, err := root.At(0)
 	if err != nil {
 		return Ptr{}, annotate(err).errorf("read root")
 	}
@@ -174,7 +178,11 @@ func (m *Message) SetRoot(p Ptr) error {
 	if err != nil {
 		return annotate(err).errorf("set root")
 	}
-	if err := s.root().Set(0, p); err != nil {
+	root := s.root()
+	if !root.IsValid() {
+		return newError("set root: first segment is too short to hold a root pointer")
+	}
+	if err := root.Set(0, p); err != nil {
 		return annotate(err).errorf("set root")
 	}
 	return nil
